@@ -18,8 +18,10 @@ MANIFEST = dict(
          'doc mentions them, routes mentioned in route / namespace docs, inherited member docs read in the child namespace). Tied '
          'to the code by differential runs of specs_to_ir(..., route_whitelist_filter=wl) against the compiled model on a dump of '
          'the unfiltered Api, an independent Python reference closure on the unfiltered Api as direct oracle (whitelisted kept, '
-         'closed, nothing outside, dangling-reference scan of the filtered Api) and a fresh-interpreter import of python_types '
-         'output for the filtered Api.',
+         'closed, nothing outside, dangling-reference scan of the filtered Api incl. what get_route_io_data_types reports) and a '
+         'fresh-interpreter import of python_types output for the filtered Api; inputs: hand-written specs, generated specs and '
+         'an edge grid (every edge kind x written shape x holder x namespace, one root route per case whitelisted alone); the '
+         'hand-written specs also through stone.cli.main --route-whitelist-filter FILE with a capturing backend.',
     note='Trusted: Lean kernel, correspondence generators (specgen + whitelist planner), the dump of the Api into the graph, '
          're (doc_ref_re) as an external component. The work bound of the dependency walk is not proved sufficient (the model '
          'reports exhaustion as an error; never observed). Route attributes, `deprecated by` routes, annotations and examples are '
@@ -42,6 +44,12 @@ def run(ck):
     sources = graph.hand_specs() + graph.generated_specs(ck, ck.scale(10, 90))
     graph.suite_filter(ck, sources)
     timings['filter'] = round(time.time() - t0, 2)
+    t0 = time.time()
+    graph.suite_edge_grid(ck)
+    timings['edge_grid'] = round(time.time() - t0, 2)
+    t0 = time.time()
+    graph.suite_cli_whitelist(ck, sources)
+    timings['cli'] = round(time.time() - t0, 2)
     t0 = time.time()
     graph.suite_linearize(ck, sources)
     timings['linearize'] = round(time.time() - t0, 2)
